@@ -206,8 +206,8 @@ Definition sci_rounded (B : Z) (m : mode) (s e : Z) (prec : option Z) : Z * Z :=
   | None => (s, e)
   end.
 
-Definition sci_body_asis (B : Z) (m : mode) (upper : bool) (s e : Z) (prec : option Z) : list Z :=
-  let '(signif, exp) := sci_rounded B m s e prec in
+Definition sci_layout (B : Z) (upper : bool) (s : Z) (prec : option Z) (rounded : Z * Z) : list Z :=
+  let '(signif, exp) := rounded in
   let str := if (s <? 0) && (signif =? 0) then [] else dtext upper B (Z.abs signif) in
   let exp_adjust := exp + len str - 1 in
   let int := firstn 1 str in
@@ -216,6 +216,20 @@ Definition sci_body_asis (B : Z) (m : mode) (upper : bool) (s e : Z) (prec : opt
   int ++ (if len fract =? 0 then [] else 46 :: fract) ++
   (if 0 <? p then (if len fract =? 0 then [46] else []) ++ zeros (p - len fract) else []) ++
   [sci_marker B upper] ++ itoa exp_adjust.
+
+Definition sci_body_asis (B : Z) (m : mode) (upper : bool) (s e : Z) (prec : option Z) : list Z :=
+  sci_layout B upper s prec (sci_rounded B m s e prec).
+
+(** before the repair F03: the carry was kept, one digit too many was printed *)
+Definition sci_rounded_old (B : Z) (m : mode) (s e : Z) (prec : option Z) : Z * Z :=
+  match prec with
+  | Some p0 =>
+    let diff := p0 + 1 - dlen B s in
+    if diff <? 0 then
+      let '(hi, lo) := split_digits B s (- diff) in (hi + adj (round_fract B m hi lo (- diff)), e - diff)
+    else (s, e)
+  | None => (s, e)
+  end.
 
 (* ------------------------------------------------------------------------------------------ *)
 (** * FBig::with_precision (after the repair b605284: an unlimited source is rounded too) *)
